@@ -460,7 +460,7 @@ package plugin
 
 //@ ghost pkey: map[Int]Int
 //@ ghost ch_owner: map[Int]Int
-//@ chaninv chan net.Conn: wtag(elem) == pkey[ch_owner[ch]] && elem != nil   [C06.park]
+//@ chaninv muxBrokerPending.ch: wtag(elem) == pkey[ch_owner[ch]] && elem != nil   [C06.park]
 
 //@ type MuxBroker
 //@   guarded_by Mutex: map:streams   [C20.guard] [C06.slot]
@@ -472,6 +472,7 @@ package plugin
 
 //@ type muxBrokerPending
 //@   immutable ch, doneCh   [C20.guard]
+//@   never_closed ch   [C20.send]
 //@   writers (*MuxBroker).getStream
 
 //@ func newMuxBroker
@@ -633,3 +634,423 @@ package plugin
 //@   var a, k, l: Int
 //@   assume 0 <= a && a < 4294967296 && 0 <= k && k < l && l - k < 4294967296
 //@   prove (a + k) % 4294967296 != (a + l) % 4294967296
+
+// ---------------------------------------------------------------------------------------
+// Listeners and their socket files (C18, C16, C07)
+
+//@ func serverListener_unix
+//@   nopanic [C18.total] [C16.total]
+//@   nonblocking
+//@   modifies lsn, files, listens
+//@   ensures result1 == nil ==> result0 != nil && lsn == old(lsn) + 1   [C18.mk]
+//@   ensures result1 != nil ==> result0 == nil && lsn == old(lsn)   [C18.mk]
+//@   ensures listens <= old(listens) + 1   [C16.listen]
+
+//@ func serverListener_tcp
+//@   trusted
+//@   nonblocking
+//@   modifies lsn, files, listens
+//@   ensures result1 == nil ==> result0 != nil && lsn == old(lsn) + 1
+//@   ensures result1 != nil ==> result0 == nil && lsn == old(lsn)
+
+//@ func serverListener
+//@   nopanic [C18.total] [C16.total]
+//@   nonblocking
+//@   modifies lsn, files, listens
+//@   ensures result1 == nil ==> result0 != nil && lsn == old(lsn) + 1   [C18.mk]
+//@   ensures result1 != nil ==> result0 == nil && lsn == old(lsn)   [C18.mk]
+
+//@ func newDeleteFileListener
+//@   nopanic [C18.total]
+//@   nonblocking
+//@   modifies nothing
+//@   ensures result != nil && fresh(result) && result.Listener == ln   [C18.rm]
+
+//@ func newDeleteFileListener$1
+//@   nopanic [C18.total]
+//@   nonblocking
+//@   modifies files
+//@   at call os.Remove#1 assert arg0 == path   [C18.rm]
+
+//@ func (*rmListener).Close
+//@   nopanic [C18.total]
+//@   nonblocking
+//@   requires l.Listener != nil && l.close != nil
+//@   modifies lsn, heap, files
+//@   local rm_closed: Bool := false
+//@   after call (net.Listener).Close#1 set rm_closed := true
+//@   at call (net.Listener).Close#1 assert recv == l.Listener   [C18.rm]
+//@   at call (rmListener).close#1 assert rm_closed   [C18.rm]
+//@   ensures lsn == old(lsn) - 1   [C18.rm]
+
+// ---------------------------------------------------------------------------------------
+// GRPCBroker (C07, C08, C09, C18, C20)
+
+//@ ghost gkey: map[Int]Int
+//@ ghost gch_owner: map[Int]Int
+//@ chaninv gRPCBrokerPending.ch: elem != nil && elem.ServiceId == gkey[gch_owner[ch]]   [C07.file]
+//@ pred gpending_ok(p, k) := p != nil && gkey[p] == k && p.ch != nil && p.doneCh != nil && gch_owner[p.ch] == p && allocated(p) && allocated(p.ch) && !closed(p.ch)
+//@ pred is_knock(m) := m.Knock != nil && m.Knock.Knock && !m.Knock.Ack
+
+//@ type GRPCBroker
+//@   guarded_by Mutex: map:clientStreams, map:serverStreams   [C20.guard] [C07.file]
+//@   inv this.clientStreams != nil && this.serverStreams != nil   [C07.file]
+//@   inv forall k :: k in this.clientStreams ==> gpending_ok(this.clientStreams[k], k)   [C07.file]
+//@   inv forall k :: k in this.serverStreams ==> gpending_ok(this.serverStreams[k], k)   [C08.run]
+//@   immutable streamer, tls, doneCh, clientStreams, serverStreams, addrTranslator, muxer   [C20.guard]
+//@   atomic_only nextId   [C20.guard]
+//@   noblock Mutex   [C09.nolock]
+//@   writers newGRPCBroker
+//@   once o: doneCh   [C20.close1]
+
+//@ type gRPCBrokerPending
+//@   immutable ch, doneCh   [C20.guard]
+//@   never_closed ch   [C20.send]
+//@   writers (*GRPCBroker).getClientStream, (*GRPCBroker).getServerStream
+//@   once once: doneCh   [C20.close1]
+//@   closers (*GRPCBroker).DialWithOptions
+
+//@ func newGRPCBroker
+//@   nopanic [C07.total]
+//@   nonblocking
+//@   modifies nothing
+//@   ensures result != nil && fresh(result) && result.streamer == s && result.tls == tls && result.muxer == muxer && result.addrTranslator == addrTranslator && result.doneCh != nil && !closed(result.doneCh) && !held(result.Mutex) && !held(result.dialMutex)   [C07.new] [C12.wrap]
+//@   ensures result.clientStreams != nil && result.serverStreams != nil && (forall k :: !(k in result.clientStreams) && !(k in result.serverStreams))   [C07.new]
+
+//@ func (*GRPCBroker).getClientStream
+//@   nopanic [C07.total] [C20.nopanic]
+//@   nonblocking
+//@   requires !held(m.Mutex)
+//@   modifies gkey, gch_owner, mapof(m.clientStreams), heap_fresh
+//@   at mapupdate#1 set gkey := gkey[value := key]
+//@   at store gRPCBrokerPending.ch#1 set gch_owner := gch_owner[value := object]
+//@   ensures !held(m.Mutex)   [C09.balance]
+//@   ensures gpending_ok(result, id)   [C07.file]
+
+//@ func (*GRPCBroker).getServerStream
+//@   nopanic [C08.total] [C20.nopanic]
+//@   nonblocking
+//@   requires !held(m.Mutex)
+//@   modifies gkey, gch_owner, mapof(m.serverStreams), heap_fresh
+//@   at mapupdate#1 set gkey := gkey[value := key]
+//@   at store gRPCBrokerPending.ch#1 set gch_owner := gch_owner[value := object]
+//@   ensures !held(m.Mutex)   [C09.balance]
+//@   ensures gpending_ok(result, id)   [C08.run]
+
+//@ func (*GRPCBroker).timeoutWait
+//@   nopanic [C09.total] [C20.nopanic]
+//@   bounded peer-dead [C09.timer]
+//@   requires !held(m.Mutex) && p != nil && p.doneCh != nil
+//@   modifies mapof(m.clientStreams)
+//@   ensures !held(m.Mutex)   [C09.balance]
+
+//@ func (*GRPCBroker).NextId
+//@   nopanic [C07.total]
+//@   nonblocking
+//@   modifies m.nextId
+//@   ensures result == (old(m.nextId) + 1) % 4294967296 && m.nextId == result   [C20.id]
+
+//@ func (*GRPCBroker).Run
+//@   nopanic [C07.total] [C08.total] [C09.total] [C20.nopanic]
+//@   bounded peer-dead [C09.timer]
+//@   requires m.streamer != nil && !held(m.Mutex)
+//@   modifies heap, gkey, gch_owner
+//@   after call (streamer).Recv#1 bind msg := ret0
+//@   loop#1 invariant !held(m.Mutex)   [C09.balance]
+//@   at call (*GRPCBroker).getServerStream#1 assert arg0 == msg.ServiceId && is_knock(msg)   [C08.run]
+//@   at call (*GRPCBroker).getClientStream#1 assert arg0 == msg.ServiceId && !is_knock(msg)   [C07.file] [C08.run]
+
+//@ func (*GRPCBroker).Accept
+//@   nopanic [C07.total] [C08.total] [C03.d] [C20.nopanic]
+//@   bounded peer-dead [C09.timer] [C03.c]
+//@   requires b.muxer != nil && b.streamer != nil && !held(b.Mutex)
+//@   modifies heap, gkey, gch_owner, lsn, files, listens, mux_registered, sent_info
+//@   after call serverListener#1 bind lis0: Iface := ret0
+//@   at go#1 assert mux_registered[id]   [C08.spawn]
+//@   at call (streamer).Send#1 assert arg0 != nil && arg0.ServiceId == id && arg0.Knock == nil   [C07.accept]
+//@   at call (streamer).Send#1 assert b.addrTranslator == nil ==> arg0.Network == net_of(lis_addr(lis0)) && arg0.Address == str_of(lis_addr(lis0))   [C07.accept]
+//@   at call (streamer).Send#1 assert b.addrTranslator != nil ==> arg0.Network == h2p_net(b.addrTranslator, net_of(lis_addr(lis0)), str_of(lis_addr(lis0))) && arg0.Address == h2p_addr(b.addrTranslator, net_of(lis_addr(lis0)), str_of(lis_addr(lis0)))   [C07.accept]
+//@   ensures result1 == nil ==> result0 != nil && lsn == old(lsn) + 1   [C18.broker]
+//@   ensures result1 != nil ==> result0 == nil && lsn == old(lsn)   [C18.broker]
+//@   ensures result1 == nil && !mux_enabled ==> result0 == lis0   [C07.accept]
+//@   after call (grpcmux.GRPCMuxer).Enabled#1 bind mux_enabled: Bool := ret
+
+//@ func (*GRPCBroker).Accept$1
+//@   nopanic [C08.total]
+//@   requires b != nil && b.muxer != nil && b.streamer != nil && mux_registered[id]   [C08.spawn]
+//@   requires !held(b.Mutex)   [nospawn]
+//@   modifies heap, gkey, gch_owner, mux_knocks, sent_info
+
+//@ func (*GRPCBroker).Accept$2
+//@   nopanic [C08.total] [C20.nopanic]
+//@   requires b != nil && p != nil && p.doneCh != nil && !held(b.Mutex)
+//@   modifies heap, mapof(b.serverStreams)
+//@   ensures !held(b.Mutex)   [C09.balance]
+//@   ensures result == nil
+
+//@ func (*GRPCBroker).Accept$2$1
+//@   nopanic [C20.nopanic]
+//@   close_once [C20.close1]
+//@   requires p != nil && p.doneCh != nil
+//@   modifies nothing
+
+//@ func (*GRPCBroker).Close
+//@   nopanic [C09.total] [C20.nopanic]
+//@   nonblocking
+//@   requires b.streamer != nil && b.doneCh != nil
+//@   modifies heap
+//@   ensures result == nil
+
+//@ func (*GRPCBroker).Close$1
+//@   nopanic [C20.nopanic]
+//@   close_once [C20.close1]
+//@   requires b != nil && b.doneCh != nil
+//@   modifies nothing
+//@   ensures closed(b.doneCh)   [C09.exit]
+
+//@ func (*GRPCBroker).listenForKnocks
+//@   nopanic [C08.total] [C20.nopanic]
+//@   bounded peer-dead [C09.timer]
+//@   wait select#1 the pending's doneCh is closed when the listener is closed (Accept$2) and the knock channel is fed by Run: ends with the listener
+//@   requires b.muxer != nil && b.streamer != nil && !held(b.Mutex) && mux_registered[id]   [C08.listen]
+//@   modifies heap, gkey, gch_owner, mux_knocks, sent_info
+//@   loop#1 invariant !held(b.Mutex) && mux_registered[id]
+//@   at call (grpcmux.GRPCMuxer).AcceptKnock#1 assert arg0 == id   [C08.listen]
+//@   at call (streamer).Send#1 assert arg0 != nil && arg0.ServiceId == id && arg0.Knock != nil && arg0.Knock.Knock && arg0.Knock.Ack   [C08.listen]
+
+//@ func (*GRPCBroker).knock
+//@   nopanic [C08.total] [C03.d] [C20.nopanic]
+//@   bounded peer-dead [C09.timer] [C03.c]
+//@   requires b.streamer != nil && !held(b.Mutex)
+//@   modifies heap, gkey, gch_owner, sent_info
+//@   after select#1 bind kmsg := recv0
+//@   after select#1 bind ksel: Int := index
+//@   at call (streamer).Send#1 assert arg0 != nil && arg0.ServiceId == id && arg0.Knock != nil && arg0.Knock.Knock && !arg0.Knock.Ack   [C08.knock]
+//@   ensures !held(b.Mutex)   [C09.balance]
+
+//@ func (*GRPCBroker).muxDial$1
+//@   nopanic [C08.total] [C03.d] [C20.nopanic]
+//@   bounded peer-dead [C03.c]
+//@   requires b != nil && b.muxer != nil && b.streamer != nil && !held(b.Mutex) && !held(b.dialMutex)
+//@   modifies heap, gkey, gch_owner, sent_info, conns_open
+//@   local knocked: Bool := false
+//@   after call (*GRPCBroker).knock#1 set knocked := ret == nil
+//@   at call (grpcmux.GRPCMuxer).Dial#1 assert knocked && held(b.dialMutex)   [C08.dial]
+//@   at call (*GRPCBroker).knock#1 assert arg0 == id && held(b.dialMutex)   [C08.dial]
+//@   ensures !held(b.dialMutex)   [C08.dial]
+
+//@ func dialGRPCConn
+//@   nopanic [C12.total] [C03.d]
+//@   nonblocking
+//@   modifies heap_fresh
+//@   ensures result1 != nil ==> result0 == nil
+//@   ensures result1 == nil ==> result0 != nil && fresh(result0)
+//@   at call grpc.WithInsecure#1 assert tls == nil   [C12.wrap]
+//@   at call credentials.NewTLS#1 assert arg0 == tls && tls != nil   [C12.wrap]
+//@   at call grpc.WithDialer#1 assert arg0 == dialer   [C07.dial]
+
+//@ func netAddrDialer
+//@   nopanic [C07.total]
+//@   nonblocking
+//@   modifies heap_fresh
+//@   ensures result != nil
+
+//@ func netAddrDialer$1
+//@   nopanic [C07.total] [C03.d]
+//@   nonblocking
+//@   requires addr != nil
+//@   modifies conns_open
+//@   at call net.Dial#1 assert arg0 == net_of(addr) && arg1 == str_of(addr)   [C07.dial]
+
+//@ func (*GRPCBroker).Dial
+//@   nopanic [C07.total]
+//@   bounded peer-dead [C03.c]
+//@   requires b.muxer != nil && b.streamer != nil && !held(b.Mutex)
+//@   modifies heap, gkey, gch_owner
+
+//@ func (*GRPCBroker).DialWithOptions
+//@   nopanic [C07.total] [C08.total] [C03.d] [C20.nopanic]
+//@   bounded peer-dead [C09.timer] [C03.c]
+//@   close_once [C20.close1]
+//@   requires b.muxer != nil && b.streamer != nil && !held(b.Mutex)
+//@   modifies heap, gkey, gch_owner
+//@   after call (*GRPCBroker).getClientStream#1 assume !closed(ret.doneCh)
+//@   after select#1 bind ci := recv0
+//@   after call (grpcmux.GRPCMuxer).Enabled#1 bind dmux: Bool := ret
+//@   at call dialGRPCConn#1 assert arg0 == b.tls   [C12.wrap]
+//@   at call dialGRPCConn#2 assert arg0 == b.tls   [C12.wrap]
+//@   at call close#1 assert ci != nil && ci.ServiceId == id   [C07.dial]
+//@   at call net.ResolveTCPAddr#1 assert b.addrTranslator == nil ==> arg1 == ci.Address   [C07.dial]
+//@   at call net.ResolveTCPAddr#1 assert b.addrTranslator != nil ==> arg1 == p2h_addr(b.addrTranslator, ci.Network, ci.Address)   [C07.dial]
+//@   at call net.ResolveUnixAddr#1 assert b.addrTranslator == nil ==> arg1 == ci.Address   [C07.dial]
+//@   at call net.ResolveUnixAddr#1 assert b.addrTranslator != nil ==> arg1 == p2h_addr(b.addrTranslator, ci.Network, ci.Address)   [C07.dial]
+//@   after call net.ResolveTCPAddr#1 bind raddr_t: Ref := ret0
+//@   after call net.ResolveUnixAddr#1 bind raddr_u: Ref := ret0
+//@   at call netAddrDialer#1 assert arg0 == iface(cast(raddr_t, "*net.TCPAddr")) || arg0 == iface(cast(raddr_u, "*net.UnixAddr"))   [C07.dial]
+//@   ensures err != nil ==> conn == nil   [C07.dial]
+
+//@ func (*GRPCBroker).AcceptAndServe
+//@   nopanic [C07.total] [C12.total]
+//@   requires b.muxer != nil && b.streamer != nil && !held(b.Mutex) && newGRPCServer != nil
+//@   modifies heap, gkey, gch_owner, lsn, files, listens, mux_registered, sent_info
+//@   after call (*GRPCBroker).Accept#1 bind aln: Iface := ret0
+//@   after call (*GRPCBroker).Accept#1 bind aerr: Iface := ret1
+//@   at call (*GRPCBroker).Accept#1 assert arg0 == id   [C07.serve]
+//@   at call credentials.NewTLS#1 assert arg0 == b.tls && b.tls != nil   [C12.wrap]
+//@   at call param:newGRPCServer#1 assert b.tls == nil ==> len(arg0) == 0   [C12.wrap]
+//@   at call param:newGRPCServer#1 assert b.tls != nil ==> len(arg0) == 1 && arg0[0] == srvopt_creds(creds_tls(b.tls))   [C12.wrap]
+//@   at call (*run.Group).Add#1 assert true
+//@   ensures aerr == nil ==> lsn == old(lsn)   [C18.broker] [C07.serve]
+//@   ensures aerr != nil ==> lsn == old(lsn)   [C18.broker]
+
+//@ func (*GRPCBroker).AcceptAndServe$1
+//@   nopanic [C07.total]
+//@   requires server != nil
+//@   at call (*grpc.Server).Serve#1 assert recv == server && arg0 == ln   [C07.serve]
+
+//@ func (*GRPCBroker).AcceptAndServe$3
+//@   nopanic [C09.total]
+//@   bounded peer-dead [C09.timer]
+//@   wait select#1 ends when the broker is closed (doneCh, see GRPCBroker.Close) or the run group interrupts it (closeCh)
+//@   requires b != nil && b.doneCh != nil && closeCh != nil
+//@   modifies nothing
+
+//@ func (*GRPCBroker).AcceptAndServe$4
+//@   nopanic [C20.nopanic]
+//@   close_once [C20.close1]
+//@   requires closeCh != nil && !closed(closeCh)
+//@   modifies nothing
+
+//@ type gRPCBrokerServer
+//@   immutable send, recv, quit   [C20.guard]
+//@   never_closed send, recv   [C20.send]
+//@   writers newGRPCBrokerServer
+//@   once o: quit   [C20.close1]
+
+//@ func newGRPCBrokerServer
+//@   nopanic [C07.total]
+//@   nonblocking
+//@   modifies heap_fresh
+//@   ensures result != nil && fresh(result) && result.send != nil && result.recv != nil && result.quit != nil && !closed(result.quit)   [C07.new]
+
+//@ func (*gRPCBrokerServer).Close
+//@   nopanic [C09.total] [C20.nopanic]
+//@   nonblocking
+//@   requires s.quit != nil
+//@   modifies heap
+
+//@ func (*gRPCBrokerServer).Close$1
+//@   nopanic [C20.nopanic]
+//@   close_once [C20.close1]
+//@   requires s != nil && s.quit != nil
+//@   modifies nothing
+//@   ensures closed(s.quit)   [C09.exit]
+
+//@ func (*gRPCBrokerServer).Send
+//@   nopanic [C07.total] [C03.d] [C20.nopanic]
+//@   bounded peer-dead [C09.timer] [C03.c]
+//@   close_once [C20.close1]
+//@   wait select#1 the quit alternative fires when the stream ends (StartStream defers Close) or the broker is closed
+//@   wait recv#1 signalled_by (*gRPCBrokerServer).StartStream$1: every request taken from s.send is answered on its ch (checked there); a request is only enqueued while the pump can still take it or quit is closed
+//@   requires s.quit != nil && s.send != nil
+//@   modifies heap_fresh
+//@   at select#1 assert sent1 != nil && sent1.i == i && sent1.ch != nil && !closed(sent1.ch) && fresh(sent1.ch)   [C07.pump] [C20.send]
+
+//@ func (*gRPCBrokerServer).Recv
+//@   nopanic [C07.total] [C03.d]
+//@   bounded peer-dead [C09.timer] [C03.c]
+//@   wait select#1 the quit alternative fires when the broker is closed; the stream side ends it when the connection dies
+//@   requires s.quit != nil && s.recv != nil
+//@   modifies nothing
+//@   after select#1 bind rsel: Int := index
+//@   after select#1 bind rmsg: Ref := recv1
+//@   ensures result1 == nil ==> rsel == 1 && result0 == rmsg   [C07.pump]
+//@   ensures result1 != nil ==> result0 == nil   [C07.pump]
+
+//@ func (*gRPCBrokerServer).StartStream$1
+//@   nopanic [C07.total] [C20.nopanic]
+//@   bounded peer-dead [C09.timer]
+//@   wait select#1 ends with doneCh (stream context) or quit
+//@   wait send#1 the requester waits for exactly this reply before closing the channel (see Send)
+//@   requires s != nil && s.quit != nil && s.send != nil && stream != nil && doneCh != nil
+//@   modifies heap
+//@   after select#1 bind se := recv2
+//@   after select#1 assume index == 2 ==> recv2 != nil && recv2.ch != nil && !closed(recv2.ch)
+//@   at call (plugin.GRPCBroker_StartStreamServer).Send#1 assert arg0 == se.i   [C07.pump]
+//@   at send#1 assert chan == se.ch   [C07.pump] [C20.send]
+
+//@ type gRPCBrokerClientImpl
+//@   immutable send, recv, quit   [C20.guard]
+//@   never_closed send, recv   [C20.send]
+//@   writers newGRPCBrokerClient
+//@   once o: quit   [C20.close1]
+
+//@ func newGRPCBrokerClient
+//@   nopanic [C07.total]
+//@   nonblocking
+//@   modifies heap_fresh
+//@   ensures result != nil && fresh(result) && result.send != nil && result.recv != nil && result.quit != nil && !closed(result.quit)   [C07.new]
+
+//@ func (*gRPCBrokerClientImpl).Close
+//@   nopanic [C09.total] [C20.nopanic]
+//@   nonblocking
+//@   requires s.quit != nil
+//@   modifies heap
+
+//@ func (*gRPCBrokerClientImpl).Close$1
+//@   nopanic [C20.nopanic]
+//@   close_once [C20.close1]
+//@   requires s != nil && s.quit != nil
+//@   modifies nothing
+//@   ensures closed(s.quit)   [C09.exit]
+
+//@ func (*gRPCBrokerClientImpl).Send
+//@   nopanic [C07.total] [C03.d] [C20.nopanic]
+//@   bounded peer-dead [C09.timer] [C03.c]
+//@   close_once [C20.close1]
+//@   wait select#1 the quit alternative fires when the stream ends (StartStream defers Close) or the broker is closed
+//@   wait recv#1 signalled_by (*gRPCBrokerClientImpl).StartStream$1: every request taken from s.send is answered on its ch (checked there); a request is only enqueued while the pump can still take it or quit is closed
+//@   requires s.quit != nil && s.send != nil
+//@   modifies heap_fresh
+//@   at select#1 assert sent1 != nil && sent1.i == i && sent1.ch != nil && !closed(sent1.ch) && fresh(sent1.ch)   [C07.pump] [C20.send]
+
+//@ func (*gRPCBrokerClientImpl).Recv
+//@   nopanic [C07.total] [C03.d]
+//@   bounded peer-dead [C09.timer] [C03.c]
+//@   wait select#1 the quit alternative fires when the broker is closed; the stream side ends it when the connection dies
+//@   requires s.quit != nil && s.recv != nil
+//@   modifies nothing
+//@   after select#1 bind rsel: Int := index
+//@   after select#1 bind rmsg: Ref := recv1
+//@   ensures result1 == nil ==> rsel == 1 && result0 == rmsg   [C07.pump]
+//@   ensures result1 != nil ==> result0 == nil   [C07.pump]
+
+//@ func (*gRPCBrokerClientImpl).StartStream$1
+//@   nopanic [C07.total] [C20.nopanic]
+//@   bounded peer-dead [C09.timer]
+//@   wait select#1 ends with doneCh (stream context) or quit
+//@   wait send#1 the requester waits for exactly this reply before closing the channel (see Send)
+//@   requires s != nil && s.quit != nil && s.send != nil && stream != nil && doneCh != nil
+//@   modifies heap
+//@   after select#1 bind se := recv2
+//@   after select#1 assume index == 2 ==> recv2 != nil && recv2.ch != nil && !closed(recv2.ch)
+//@   at call (plugin.GRPCBroker_StartStreamClient).Send#1 assert arg0 == se.i   [C07.pump]
+//@   at send#1 assert chan == se.ch   [C07.pump] [C20.send]
+
+//@ func (*gRPCBrokerServer).StartStream
+//@   nopanic [C07.total] [C20.nopanic]
+//@   bounded peer-dead [C09.timer]
+//@   wait select#1 ends with doneCh (stream context) or quit
+//@   requires s.quit != nil && s.send != nil && s.recv != nil && stream != nil
+//@   modifies heap
+//@   after call (plugin.GRPCBroker_StartStreamServer).Recv#1 bind m0: Ref := ret0
+//@   at select#1 assert sent2 == m0   [C07.pump]
+
+//@ func (*gRPCBrokerClientImpl).StartStream
+//@   nopanic [C07.total] [C03.d] [C20.nopanic]
+//@   bounded peer-dead [C09.timer] [C03.c]
+//@   wait select#1 ends with doneCh (stream context) or quit
+//@   requires s.quit != nil && s.send != nil && s.recv != nil && s.client != nil
+//@   modifies heap, cancelled
+//@   after call (plugin.GRPCBroker_StartStreamClient).Recv#1 bind m0: Ref := ret0
+//@   at select#1 assert sent2 == m0   [C07.pump]
